@@ -658,10 +658,10 @@ UNITS = [
       checked_by_assertions=["lrtr_ipv6_addr_to_str"], need_classes=["assertion"], kind="complete",
       bound=24, native={}, timeout=1800, allow_undefined=True, stubs=["sprintf"]),
     U(id="key_cmp", props=["C10"], file="units/spki_leaf.c", entry="h_key_cmp", defines=["H_ENTRY=h_key_cmp"], enforce=[], plain=True,
-      checked_by_assertions=["key_entry_cmp"], need_classes=["assertion"], kind="complete", bound=93, native=None, allow_undefined=True),
+      checked_by_assertions=["key_entry_cmp"], need_classes=["assertion"], kind="complete", bound=93, native={"only": ["rtrlib/lib/alloc_utils.c", "third-party/tommyds/tommy.c"], "libs": ["-lpthread"]}, allow_undefined=True),
     U(id="key_conv", props=["C10"], file="units/spki_leaf.c", entry="h_key_conv", defines=["H_ENTRY=h_key_conv"], enforce=[], plain=True,
       checked_by_assertions=["key_entry_to_spki_record", "spki_record_to_key_entry"], need_classes=["assertion"], kind="complete", bound=93,
-      native=None, allow_undefined=True),
+      native={"only": ["rtrlib/lib/alloc_utils.c", "third-party/tommyds/tommy.c"], "libs": ["-lpthread"]}, allow_undefined=True),
     U(id="shape_remove", props=["C02"], file="units/trie_shape.c", entry="h_shape_remove", defines=["STUB_IP", "H_ENTRY=h_shape_remove"], enforce=[], plain=True,
       checked_by_assertions=["trie_remove", "replace_node_data", "deref_node"], need_classes=["assertion"],
       kind="bounded: every trie shape of up to 2 (quick) / 3 (thorough) levels below the node", tier_defines={"quick": {"TS_DEPTH": 2}, "thorough": {"TS_DEPTH": 3}},
@@ -670,7 +670,7 @@ UNITS = [
       checked_by_assertions=["trie_insert", "swap_nodes", "add_child_node", "is_left_child"], need_classes=["assertion"],
       kind="bounded: every trie shape of up to 2 (quick) / 3 (thorough) levels below the insertion point", tier_defines={"quick": {"TS_DEPTH": 2}, "thorough": {"TS_DEPTH": 3}},
       bound=18, unwindset={"trie_insert": {"quick": 4, "thorough": 5}}, native={"only": ["rtrlib/lib/alloc_utils.c"], "libs": ["-lpthread"]}, timeout=3000, allow_undefined=True, stubs=["lrtr_ip_addr_*"]),
-    U(id="pfx_swap", props=["C06", "C16"], file="units/swap.c", entry="h_pfx_swap", enforce=["pfx_table_swap"], kind="complete", native=None,
+    U(id="pfx_swap", props=["C06", "C16"], file="units/swap.c", entry="h_pfx_swap", enforce=["pfx_table_swap"], kind="complete", native={"only": ["rtrlib/lib/alloc_utils.c", "rtrlib/pfx/trie/trie.c", "rtrlib/lib/ip.c", "rtrlib/lib/ipv4.c", "rtrlib/lib/ipv6.c", "rtrlib/lib/utils.c", "rtrlib/lib/convert_byte_order.c"], "libs": ["-lpthread", "-lrt"]},
       stubs=["pthread_rwlock_*"]),
     U(id="spki_swap", props=["C06", "C10", "C16"], file="units/spki_swap.c", entry="h_spki_swap", enforce=[], plain=True,
       checked_by_assertions=["spki_table_swap"], need_classes=["assertion"], kind="complete", bound=600, native={"skip_all": True, "libs": ["-lpthread"]}, timeout=1200,
